@@ -628,6 +628,13 @@ func (pool *hostConnPool) connect() (err error) {
 		return nil
 	}
 
+	if conn.Closed() {
+		// lost between the handshake and here: HandleError has already run and did
+		// not find the connection in the pool, nobody would ever remove it
+		pool.mu.Unlock()
+		return ErrConnectionClosed
+	}
+
 	pool.conns = append(pool.conns, conn)
 	pool.mu.Unlock()
 
